@@ -741,6 +741,29 @@ def part_c(facts, res):
             okk = io == [("write_all", expect_term), ("flush",)]
             why = None
             if not okk and len(io) == 2 and io[0][0] == "write_all" and io[1] == ("flush",):
+                # the same text built as  <term>  followed by pushed constant pieces (s.push('\n'), push_str("...")): a concatenation
+                def norm(tm_):
+                    if isinstance(tm_, tuple) and len(tm_) == 2 and tm_[0] == "bytes":
+                        return ("bytes", norm(tm_[1]))
+                    if isinstance(tm_, tuple) and len(tm_) == 3 and tm_[0] == "build" and not (isinstance(tm_[1], tuple) and tm_[1] and tm_[1][0] == "prefix"):
+                        base_ = norm(tm_[1])
+                        if not tm_[2]:
+                            return base_
+                        tail_ = flat(tm_[2], o.state.pc)
+                        if tail_ is None or len(tail_) != 1 or any(bv.to_int(x) is None for x in tail_[0][1]):
+                            return tm_
+                        try:
+                            txt = bytes(bv.to_int(x) for x in tail_[0][1]).decode("utf-8")
+                        except UnicodeDecodeError:
+                            return tm_
+                        if base_ == "":
+                            return txt
+                        if isinstance(base_, tuple) and len(base_) == 3 and base_[0] == "concat" and isinstance(base_[2], str):
+                            return ("concat", base_[1], base_[2] + txt)
+                        return ("concat", base_, txt)
+                    return tm_
+                okk = [("write_all", norm(io[0][1])), io[1]] == [("write_all", expect_term), ("flush",)]
+            if not okk and len(io) == 2 and io[0][0] == "write_all" and io[1] == ("flush",):
                 tm = io[0][1]
                 # piecewise-built text: prefix of a verified escape loop over this message, then the terminator
                 if isinstance(tm, tuple) and tm[0] == "bytes" and isinstance(tm[1], tuple) and tm[1][0] == "build" and isinstance(tm[1][1], tuple) and tm[1][1][0] == "prefix":
@@ -829,12 +852,27 @@ def part_c(facts, res):
             res.errors.append("send_message: call chain %r is not one this rule recognises: not decidable" % names_sm)
     rw = [k for k in facts.bodies if k.endswith("start_receive_worker::{closure#0}")]
     if len(rw) == 1:
+        # the loop that reads the lines may live in a helper the worker calls: the rules apply to the body that calls read_line
+        cg_ = cfgmod.CallGraph(facts)
+        holders = [k for k in sorted(cg_.reachable(rw[0])) if k in facts.bodies and any(p.endswith("read_line") for i, p, t in cfgmod.Cfg(facts.bodies[k]).calls())]
+        if len(holders) == 1:
+            rw = holders
+        res.inventory["receive_loop_body"] = rw[0]
         calls = [(p, t) for i, p, t in cfgmod.Cfg(facts.bodies[rw[0]]).calls()]
+        # small helpers of the crate called from the loop (e.g. a `strip_terminator(&str) -> &str`) are looked through for the name rule
+        owner_ = {}
+        for k_ in sorted(cg_.reachable(rw[0])):
+            if k_ != rw[0] and k_ in facts.bodies and not k_.endswith("{closure#0}") and len(facts.bodies[k_]["blocks"]) <= 40:
+                extra_ = [(p_, t_) for i_, p_, t_ in cfgmod.Cfg(facts.bodies[k_]).calls()]
+                for p_, t_ in extra_:
+                    owner_[id(t_)] = k_
+                calls = [(p_, t_) for p_, t_ in calls if p_ != k_] + extra_
         names = [p.split("::")[-1] for p, t in calls]
         rep = [t for p, t in calls if p.endswith("replace")]
         gg = cfgmod.Cfg(facts.bodies[rw[0]])
-        r1 = gg.roots(rep[0]["args"][1]) if rep else set()
-        r2 = gg.roots(rep[0]["args"][2]) if rep else set()
+        ggr = cfgmod.Cfg(facts.bodies[owner_[id(rep[0])]]) if rep and id(rep[0]) in owner_ else gg
+        r1 = ggr.roots(rep[0]["args"][1]) if rep else set()
+        r2 = ggr.roots(rep[0]["args"][2]) if rep else set()
         strip_ok = (len(rep) == 1 and ("const", "10") in r1 and ("const", "") in r2) or any(n in names for n in ("trim_end_matches", "strip_suffix", "trim_end"))
         resets_named = any(n in names for n in ("clear", "take", "drain", "split_off")) or names.count("new") > 1
         okk = "read_line" in names and names.count("send") == 1 and strip_ok and resets_named and len(rep) <= 1
